@@ -231,6 +231,16 @@ int main(int argc, char **argv)
             sysrand_reset(hx_seed); sysrand_fail_mask = fail; int r2 = ascon_random(o2, 48);
             if ((r1 != 0) != !fail || r1 != r2) hx_fail("prng:status:ascon_random", "returned %d with the system source %s", r1, fail ? "failing" : "healthy");
             if (memcmp(o1, o2, 48)) hx_fail("prng:determinism", "ascon_random not a function of the system bytes");
+            /* the status does not depend on how many bytes are asked for (none, with and without an output pointer; one; many), nor on the entry point (a NULL state hands the call to ascon_random) */
+            static const size_t lens[] = {0, 0, 1, 31, 32, 33, 47};
+            for (unsigned li = 0; li < sizeof lens / sizeof lens[0]; li++) for (int ep = 0; ep < 2; ep++) {
+                sysrand_reset(hx_seed); sysrand_fail_mask = fail; unsigned before = sysrand_calls;
+                int r = !fail; if (ep) ascon_random_fetch(0, li == 0 ? 0 : o1, lens[li]); else r = ascon_random(li == 0 ? 0 : o1, lens[li]);
+                if ((r != 0) != !fail) hx_fail("prng:status:ascon_random", "ascon_random of %zu bytes returned %d with the system source %s", lens[li], r, fail ? "failing" : "healthy");
+                /* without a generator object there is nothing else the bytes (or the status) could come from */
+                if (sysrand_calls == before && (!ep || lens[li])) hx_fail("prng:determinism", "%s of %zu bytes did not consult the system source", ep ? "ascon_random_fetch(NULL state)" : "ascon_random", lens[li]);
+                nruns++;
+            }
         }
         ascon_storage_t stg; memset(&stg, 0, sizeof stg); stg.size = 32; stg.read = st_read; stg.write = st_write; ascon_random_state_t rs;
         sysrand_reset(hx_seed); ascon_random_init(&rs);
